@@ -80,7 +80,7 @@ def jobs(tier):
                     J.append(job('C02', alg, n, 3, obj='diff', order='desc', groups=g, checks=ck, mandatory=(n == 6)))
     # value lists (the items are the numbers themselves, so equal values are equal ITEMS): repeated values
     for alg in EXACT_DIFF:
-        for (n, k, g) in ((5, 3, [4, 1]), (5, 3, [1, 4]), (6, 3, [4, 2]), (5, 2, [3, 2])):
+        for (n, k, g) in ((5, 3, [4, 1]), (5, 3, [1, 4]), (6, 3, [4, 2]), (5, 2, [3, 2]), (6, 3, [3, 2, 1]), (6, 3, [1, 2, 3])):
             J.append(job('C02', alg, n, k, obj='diff', order='asc', groups=g, pres='list', checks=ck))
         J.append(job('C02', alg, 4, 3, obj='diff', order='desc', pres='list', checks=ck))
     for o in ('max', 'min'):
